@@ -638,7 +638,9 @@ func parseCReply(it []byte) *creply {
 		case "result":
 			hasRes, res = true, m.Value
 		case "error":
-			hasErr, errObj = true, m.Value
+			if string(m.Value) != "null" { // a null error is no error object
+				hasErr, errObj = true, m.Value
+			}
 		case "method":
 			hasMethod = true
 		default:
